@@ -13,6 +13,7 @@
 #include <cstdlib>
 #include <cstring>
 #include <csetjmp>
+#include <array>
 #include <cerrno>
 #include <clocale>
 #include <string>
@@ -39,15 +40,16 @@ static string g_abort_what;
 static jmp_buf g_call_jmp;
 static bool g_call_armed = false;
 extern "C" void __wrap_abort(void) {
-    if (g_call_armed) { g_call_armed = false; longjmp(g_call_jmp, 1); }
+    if (g_call_armed) { g_call_armed = false; g_abort_what = "abort() called inside the library"; longjmp(g_call_jmp, 1); }
     if (g_abort_armed) { g_abort_what = "abort() called inside the library"; longjmp(g_abort_jmp, 1); }
     _Exit(70);
 }
 extern "C" void __wrap___assert_fail(const char *expr, const char *file, unsigned line, const char *fn) {
-    if (g_call_armed) { g_call_armed = false; longjmp(g_call_jmp, 2); }
-    if (g_abort_armed) {
+    if (g_call_armed || g_abort_armed) {
         char b[256]; snprintf(b, sizeof b, "assertion `%s' failed at %s:%u (%s)", expr, file, line, fn ? fn : "?");
-        g_abort_what = b; longjmp(g_abort_jmp, 2);
+        g_abort_what = b;
+        if (g_call_armed) { g_call_armed = false; longjmp(g_call_jmp, 2); }
+        longjmp(g_abort_jmp, 2);
     }
     fprintf(stderr, "assert outside SUT: %s %s:%u\n", expr, file, line);
     _Exit(71);
@@ -241,6 +243,16 @@ static void build_pools() {
         string a = shim_tld_name(i), b = shim_tld_name(j);
         if (a.size() < b.size() && b.compare(0, a.size(), a) == 0 && shim_tld_type(i) != shim_tld_type(j) && (i * 31 + j) % 4 == 0)
             G.pairs.push_back({ "user@host." + a, "user@host." + b });
+    }
+    // an unknown label that extends, or differs late from, a LONG valid TLD (keys cut to a fixed width, prefix compares): the
+    // unknown one first, then the valid one
+    for (int i = 0; i < nt; i++) {
+        string a = shim_tld_name(i);
+        if (a.size() < 10) continue;
+        string t1 = a + a.back(), t2 = a + "s", t3 = a; t3[a.size() - 1] = (a.back() == 'x' ? 'y' : 'x');
+        G.pairs.push_back({ "user@host." + t1, "user@host." + a });
+        if ((i % 3) == 0) G.pairs.push_back({ "user@host." + t2, "user@host." + a });
+        if ((i % 3) == 1) G.pairs.push_back({ "user@host." + t3, "user@host." + a });
     }
     // same length, same first and last bytes, different verdict: defeats memoisation keyed on cheap features of the address
     {
@@ -731,6 +743,7 @@ struct Exec {
             // the fresh object aborts under this fault: that is the reference outcome; the object is abandoned as it is
             g_sim_tag = SIM_TAG_NONE; g_sim_in_free = 0;
             o.aborted = true; o.alloc_fired = g_sim_af_fired != 0; if (k.mf) o.af_sig = af_signature();
+            if (!k.mf) viol("C13:abort-inside-library", "a fresh object aborts in eav_is_email('" + k.a + "') although nothing was made to fail: " + g_abort_what);
             caller_done();
             sim_ledger_forget(SIM_TAG_REF); sim_ctx_forget(SIM_TAG_REF);
             drain_reports();
@@ -994,7 +1007,8 @@ struct Exec {
                 auto it0 = ref_pre.find(k);
                 if (it0 == ref_pre.end()) { viol("harness:missing-reference", "dry model pass and execution disagree"); break; }
                 ST.outcome_cmp++; nontrivial_cmp = true;
-                if (it0->second.af_sig != o.af_sig) ST.af_not_comparable++;     // the fault met other allocations on the fresh object (see below)
+                if (!op.mf) viol("C13:abort-inside-library", "eav_is_email('" + op.a + "') aborts although nothing was made to fail: " + g_abort_what);
+                else if (it0->second.af_sig != o.af_sig) ST.af_not_comparable++;     // the fault met other allocations on the fresh object (see below)
                 else if (!it0->second.aborted) viol(o.alloc_fired ? "C13:outcome-differs-from-fresh-object" : "C13:abort-inside-library", "eav_is_email('" + op.a + "') aborts on the reused object, a fresh object with the same settings" + (op.mf ? " under the same allocation failure" : "") + " does not: fresh {" + it0->second.str() + "}");
                 // the object is abandoned as the abort left it
                 sim_ledger_forget(op.o); sim_ctx_forget(op.o);
@@ -1172,18 +1186,18 @@ static bool run_sweep(const Plan &p, vector<Viol> &viols, Plan &derived) {
     int b_ret = 0, b_ec = 0, b_rc = 0;
     string base_label = "qzxqjvkqz";
     if (ok) call("u@m." + base_label, b_ret, b_ec, b_rc);
-    vector<string> warm;
+    vector<string> warm; vector<std::array<int, 3>> warm_out((size_t)nt, std::array<int, 3>{ 0, 0, 0 });
     if (ok) {
         vector<int> order(nt); for (int i = 0; i < nt; i++) order[i] = i;
         for (int i = nt; i > 1; i--) std::swap(order[i - 1], order[sim_below(&r, (uint64_t)i)]);
-        for (int i : order) { string a = string("u@m.") + shim_tld_name(i); int x, y, z; call(a, x, y, z); warm.push_back(a); }
+        for (int i : order) { string a = string("u@m.") + shim_tld_name(i); int x, y, z; call(a, x, y, z); warm.push_back(a); warm_out[i] = { x, y, z }; }
     }
-    long nprobes = 20000; bool found = false; string bad; char b[200];
+    long nprobes = 20000; bool found = false; string bad, extra_before; char b[320];
     static const char AL[] = "abcdefghijklmnopqrstuvwxyz0123456789-";
     for (long i = 0; ok && i < nprobes && !found; i++) {
-        string l; unsigned k = (unsigned)sim_below(&r, 4);
+        string l; unsigned k = (unsigned)sim_below(&r, 4); int from = -1;
         if (k < 2) { size_t n = 2 + sim_below(&r, 11); for (size_t j = 0; j < n; j++) l += AL[sim_below(&r, j == 0 || j + 1 == n ? 26 : 37)]; }
-        else if (k == 2) { l = shim_tld_name((int)sim_below(&r, (uint64_t)nt)); unsigned m = (unsigned)sim_below(&r, 3); if (m == 0 && !l.empty()) l[sim_below(&r, l.size())] = AL[sim_below(&r, 26)]; else if (m == 1) l += AL[sim_below(&r, 26)]; else if (l.size() > 2) l.erase(sim_below(&r, l.size()), 1); }
+        else if (k == 2) { from = (int)sim_below(&r, (uint64_t)nt); l = shim_tld_name(from); unsigned m = (unsigned)sim_below(&r, 3); if (m == 0 && !l.empty()) l[sim_below(&r, l.size())] = AL[sim_below(&r, 26)]; else if (m == 1) l += AL[sim_below(&r, 26)]; else if (l.size() > 2) l.erase(sim_below(&r, l.size()), 1); }
         else { size_t n = 2 + sim_below(&r, 9); for (size_t j = 0; j < n; j++) { char c = AL[sim_below(&r, 26)]; l += (char)(sim_below(&r, 2) ? c - 32 : c); } }
         string low = l; for (auto &c : low) if (c >= 'A' && c <= 'Z') c = (char)(c + 32);
         if (member.count(low) || l.size() < 2 || l[0] == '-' || l.back() == '-' || (l.size() > 3 && l[2] == '-' && l[3] == '-')) continue;
@@ -1192,6 +1206,13 @@ static bool run_sweep(const Plan &p, vector<Viol> &viols, Plan &derived) {
         if (ret != b_ret || ec != b_ec || rc != b_rc) {
             found = true; bad = "u@m." + l;
             snprintf(b, sizeof b, "': ret=%d errcode=%d rc=%d, an unknown label before the warm-up: ret=%d errcode=%d rc=%d", ret, ec, rc, b_ret, b_ec, b_rc);
+        } else if (from >= 0) {
+            // the unknown neighbour of a real TLD was just looked up: the real one must still be decided as in the warm-up
+            string t = string("u@m.") + shim_tld_name(from); int r2, e2, c2; call(t, r2, e2, c2); g_sweep_probes++;
+            if (r2 != warm_out[from][0] || e2 != warm_out[from][1] || c2 != warm_out[from][2]) {
+                found = true; bad = t; extra_before = "u@m." + l;
+                snprintf(b, sizeof b, "' (right after its unknown neighbour '%s'): ret=%d errcode=%d rc=%d, in the warm-up: ret=%d errcode=%d rc=%d", l.c_str(), r2, e2, c2, warm_out[from][0], warm_out[from][1], warm_out[from][2]);
+            }
         }
     }
     g_sim_in_free = 1; shim_free(e); g_sim_in_free = 0;
@@ -1204,6 +1225,7 @@ static bool run_sweep(const Plan &p, vector<Viol> &viols, Plan &derived) {
     Op s; s.k = SETUP; derived.ops.push_back(s);
     Op t; t.k = SET_TLD; t.v = 1; derived.ops.push_back(t);
     for (auto &w : warm) { Op o; o.k = IS_EMAIL; o.a = w; derived.ops.push_back(o); }
+    if (!extra_before.empty()) { Op o; o.k = IS_EMAIL; o.a = extra_before; derived.ops.push_back(o); }
     Op pr; pr.k = IS_EMAIL; pr.a = bad; derived.ops.push_back(pr);
     return true;
 }
